@@ -10,15 +10,15 @@ from typing import Optional, Union, List, Dict
 from dateutil.parser import parse
 
 
-def _get_story_offsets(all_stories: Optional[List[Element]]) -> Optional[Dict[str, float]]:
+def _get_story_offsets(all_stories: Optional[List[Element]]) -> Optional[Dict[Element, float]]:
     """
-    Create a dict of {story_id: story_offset}
+    Create a dict of {story_element: story_offset}
     """
     story_offsets = {}
     if all_stories:
         t = 0
         for story in all_stories:
-            story_offsets[story.find('storyID').text] = t
+            story_offsets[story] = t
             duration = _get_story_duration(story)
             if t is not None and duration is not None:
                 t += duration
@@ -267,7 +267,7 @@ class Story(MosElement):
         The time offset of the story in seconds (if available in the XML)
         """
         try:
-            return self._story_offsets.get(self.id)
+            return self._story_offsets.get(self.xml)
         except AttributeError:
             return
 
